@@ -9,5 +9,5 @@ NamePts == {Pt(k, "wire", bn, hq[1], hq[2], r) : k \in {"iface", "ptr", "any", "
 Others == {Pt("iface", "wire", 0, FALSE, {}, FALSE), Pt("siface", "wire", 0, FALSE, {}, TRUE)}
 PtLists == {<<a>> : a \in NamePts} \cup {<<a, b>> : a \in NamePts, b \in Others} \cup {<<b, a>> : a \in NamePts, b \in Others}
 \* enumerated by nested quantification: building the set of scenario records first is far slower
-MCInit == \E p \in Pops, l \in PtLists, pre \in BOOLEAN : InitWith([prov |-> p, pts |-> l, preset |-> pre])
+MCInit == \E p \in Pops, l \in PtLists, pre \in BOOLEAN : InitWith([prov |-> p, pts |-> l, preset |-> pre, extra |-> FALSE])
 =============================================================================
